@@ -143,7 +143,7 @@ func runSettleBehaviour(t *testing.T, res *drv.Result, cfg settleCfg, steps []wS
 				buf = buf[:runtime.Stack(buf, true)]
 				_ = os.WriteFile(f, buf, 0o644)
 			}
-			viol("monitor", "panic-or-blocked", fmt.Sprintf("behaviour ended with: %v", p), len(labels))
+			viol("conformance", "leftover-goroutines", fmt.Sprintf("behaviour ended with: %v (a leak is not what C03 / C04 state)", p), len(labels))
 		}
 	}()
 	synctest.Test(t, func(t *testing.T) {
